@@ -365,29 +365,46 @@ def rule_P5(ctx):
         else:
             ok = p.ret == want
         ctx.ob("P5", p.ret_node, "resize_buffer returns the longest prefix that is a whole number of frames", ok, "" if ok else f"returns {p.ret.key() if p.ret else None} under [{p.cond_key()}]", inst=f"resize:{p.cond_key()}")
-    # every stream.read in the transcoder flows through resize_buffer(buf, <that stream's frame_size>)
-    sites = [("decode_frame", "stream.stream.read", "stream.frame_size"), ("PassthroughTranscoder.__next__", "stream.read", "self.data_stream.frame_size")]
-    for q, rd, fsz in sites:
+    # every stream.read in the transcoder flows through resize_buffer(buf, <that stream's frame_size>): decided on the
+    # value-flow terms of every call argument, test and return value of each path
+    import re as _re
+    TRIMMED = _re.compile(r"resize_buffer\(\((?P<b>[\w~.]+)\.stream\)\.read\([^()]*\),(?P=b)\.frame_size\)")
+    for q in ("decode_frame", "PassthroughTranscoder.__next__"):
         fn = ctx.fn(TR, q, "P5")
-        reads = [a for a in own_nodes(fn) if isinstance(a, ast.Assign) and isinstance(a.value, ast.Call) and isinstance(a.value.func, ast.Attribute) and a.value.func.attr == "read"]
-        if len(reads) != 1:
-            raise AnalysisError("P5", where(fn), f"expected one read in {q}")
-        var = reads[0].targets[0].id
-        rs = [a for a in own_nodes(fn) if isinstance(a, ast.Assign) and isinstance(a.value, ast.Call) and norm(a.value.func) == "resize_buffer"]
-        ok = len(rs) == 1 and norm(rs[0].targets[0]) == var and norm(rs[0].value.args[0]) == var and rs[0].lineno > reads[0].lineno
-        det = "the buffer read is not passed through resize_buffer"
-        if ok:
-            a1 = rs[0].value.args[1]
-            t1 = norm(a1)
-            if isinstance(a1, ast.Name):
-                d = [x for x in own_nodes(fn) if isinstance(x, ast.Assign) and norm(x.targets[0]) == a1.id]
-                t1 = norm(d[0].value) if d else t1
-            ok = t1 == fsz
-            det = "" if ok else f"the block is trimmed to a multiple of `{t1}`, not of the stream's frame size: an interleaved stream can end in half a frame"
-            # nothing consumes the raw buffer in between
-            between = [n for n in own_nodes(fn) if isinstance(n, ast.Name) and n.id == var and isinstance(n.ctx, ast.Load) and reads[0].lineno < n.lineno < rs[0].lineno]
-            ok = ok and not between
-        ctx.ob("P5", rs[0] if rs else fn, f"{q}: each block read is trimmed to whole frames of that stream before it is used", ok, det, inst=f"{q}:trim")
+        n_reads, bad = 0, []
+        for p in run_paths(ctx, fn, rule="P5", include_exc=False):
+            keys = []
+            for c, env, st in calls_on(p):
+                ev = evaluator(ctx, fn, env)
+                is_rb = isinstance(c.func, ast.Name) and c.func.id == "resize_buffer"
+                if isinstance(c.func, ast.Attribute) and c.func.attr == "read" and ev.ev(c.func.value).key().endswith(".stream"):
+                    n_reads += 1
+                for i, x in enumerate(c.args):
+                    k = ev.ev(x).key()
+                    if is_rb and i == 0 and len(c.args) == 2:
+                        k = ev.ev(c).key() if TRIMMED.fullmatch(ev.ev(c).key()) else "resize_buffer(" + k + "," + ev.ev(c.args[1]).key() + ")"
+                    keys.append((k, c))
+            for s_ in p.steps:
+                if s_.kind == "test" and s_.ast is not None:
+                    keys.append((evaluator(ctx, fn, s_.env).cond(s_.ast.test), s_.ast))
+            if p.ret is not None:
+                keys.append((p.ret.key(), p.ret_node))
+            for k, node in keys:
+                rest = TRIMMED.sub("TRIMMED", k)
+                if ".read(" in rest:
+                    bad.append((rest, node))
+        if n_reads == 0:
+            raise AnalysisError("P5", where(fn), f"expected a data stream read in {q}")
+        ok = not bad
+        det = ""
+        if bad:
+            rest, node = bad[0]
+            m = _re.search(r"resize_buffer\((.*\.read\([^()]*\)),([^()]*)\)", rest)
+            if m:
+                det = f"the block is trimmed to a multiple of `{m.group(2)}`, not of the frame size of the stream it was read from: an interleaved stream can end in half a frame"
+            else:
+                det = f"a block read from a data stream is used without being trimmed to whole frames: `{rest[:120]}`"
+        ctx.ob("P5", bad[0][1] if bad else fn, f"{q}: each block read is trimmed to whole frames of that stream before it is used", ok, det, inst=f"{q}:trim")
     # data_stream.frame_size = channels * width
     pi = ctx.fn("smpl_extract/data_streams.py", "DataStream.__post_init__", "P5")
     prs = [p for p in run_paths(ctx, pi, rule="P5") if p.end in ("fall", "return")]
@@ -439,58 +456,169 @@ def rule_P5(ctx):
     ok = any(isinstance(i, ast.If) and norm(i.test) == "len(data_streams) <= 0" and "NoDataStream" in raises_in(i.body) for i in own_nodes(mt))
     ctx.ob("P5", mt, "no data stream is rejected", ok, "", inst="no-stream")
     # stop conditions
+    from .sem import emptiness_by, canon_expr, grow_multiset
     pn = ctx.fn(TR, "PipelineTranscoder.__next__", "P5")
-    ok = any(isinstance(i, ast.If) and norm(i.test) == "any((len(x) <= 0 for x in channels))" and "StopIteration" in raises_in(i.body) for i in own_nodes(pn))
-    ctx.ob("P5", pn, "the pipeline stops when any channel has no more frames (output ends with the shortest source)", ok, "", inst="pipeline-stop")
+    stops = [i for i in own_nodes(pn) if isinstance(i, ast.If) and "StopIteration" in raises_in(i.body)]
+    ok = len(stops) == 1
+    if ok:
+        t = canon_expr(pn, stops[0].test)
+        m = _re.fullmatch(r"any\(\[(.+) for _c0 in channels\]\)|any\(\((.+) for _c0 in channels\)\)", t)
+        inner = (m.group(1) or m.group(2)) if m else None
+        ok = inner is not None and emptiness_by(ast.parse(inner, mode="eval").body, lambda e: isinstance(e, ast.Name) and e.id == "_c0") is True
+    ctx.ob("P5", pn, "the pipeline stops when any channel has no more frames (output ends with the shortest source), and only then", ok, "", inst="pipeline-stop")
     pa = ctx.fn(TR, "PassthroughTranscoder.__next__", "P5")
-    ok = any(isinstance(i, ast.If) and norm(i.test) in ("len(buffer) <= 0", "len(buffer) < 1", "not buffer") and "StopIteration" in raises_in(i.body) for i in own_nodes(pa))
-    ctx.ob("P5", pa, "pass-through stops only on an empty (post-trim) block", ok, "", inst="passthrough-stop")
+    n_stop = 0
+    okp = True
+    for p in run_paths(ctx, pa, rule="P5"):
+        # tests on the trimmed block decide between StopIteration and returning it
+        for s_ in p.steps:
+            if s_.kind != "test" or s_.ast is None:
+                continue
+            ev = evaluator(ctx, pa, s_.env)
+            e = emptiness_by(s_.ast.test, lambda x: bool(TRIMMED.fullmatch(ev.ev(x).key())))
+            if e is None:
+                if "TRIMMED" in TRIMMED.sub("TRIMMED", ev.cond(s_.ast.test)):
+                    okp = False
+                continue
+            empty_side = (s_.label == "true") == e
+            if empty_side:
+                n_stop += 1
+                okp = okp and p.end == "raise" and (p.raised or "").endswith("StopIteration")
+            else:
+                okp = okp and p.end == "return"
+    ctx.ob("P5", pa, "pass-through stops only on an empty (post-trim) block", okp and n_stop >= 1, "", inst="passthrough-stop")
     df = ctx.fn(TR, "decode_frame", "P5")
-    ifs = [i for i in own_nodes(df) if isinstance(i, ast.If) and "len(buffer)" in norm(i.test)]
-    ok = len(ifs) == 1 and norm(ifs[0].test) in ("buffer is None or len(buffer) <= 0", "len(buffer) <= 0", "buffer is None or len(buffer) < 1", "not buffer")
-    ctx.ob("P5", ifs[0] if ifs else df, "a stream counts as exhausted only when its (trimmed) block is empty", ok,
-           "" if ok else f"end-of-data test is `{norm(ifs[0].test) if ifs else '?'}`: a final block holding data is discarded", inst="decode-eod")
-    if ifs:
-        from .sem import grow_events
-        body_t = " ".join(full(st) for st in ifs[0].body)
-        grows = [(n, k, v) for st in ifs[0].body for n, k, v in grow_events(st, "channels")]
-        ok = len(grows) == 1 and "np.zeros(0, dtype=dtype)" in body_t and ("range(num_channels)" in body_t or "* num_channels" in body_t) \
-            and grows[0][1] in ("append", "extend", "iadd")
-        ctx.ob("P5", ifs[0], "an exhausted stream contributes one empty channel per interleaved channel (keeps channel positions)", ok,
-               "" if ok else f"on exhaustion `channels` grows by {[norm(g[0])[:60] for g in grows]}", inst="decode-eod-empties")
+    info = _decode_paths(ctx, df, TRIMMED)
+    ok = info["eod"] >= 1 and info["data"] >= 1 and not info["bad"]
+    ctx.ob("P5", info["test"] or df, "a stream counts as exhausted only when its (trimmed) block is empty", ok,
+           "" if ok else f"end-of-data test is `{norm(info['test'].test) if info['test'] is not None else '?'}` ({'; '.join(info['bad'][:2])}): a final block holding data is discarded", inst="decode-eod")
+    if info["test"] is not None:
+        t = info["test"]
+        branch = t.body if info["empty_is_true"] else t.orelse
+        ev = evaluator(ctx, df, info["env"])
+        gm = grow_multiset(branch, info["channels"])
+        ok = gm is not None and len(gm) == 1 and gm[0][0] is not None
+        if ok:
+            cnt, el = ev.ev(gm[0][0]).key(), ev.ev(gm[0][1]).key()
+            S = info["stream"]
+            ok = cnt == f"max(1,{S}.encoding.num_interleaved_channels)" and el in (f"np.zeros(0,dtype={S}.encoding.dtype)", f"np.zeros(tuple(0),dtype={S}.encoding.dtype)",
+                                                                                  f"np.array([],dtype={S}.encoding.dtype)", f"np.empty(0,dtype={S}.encoding.dtype)")
+        ctx.ob("P5", t, "an exhausted stream contributes one empty channel per interleaved channel (keeps channel positions)", ok,
+               "" if ok else f"on exhaustion `{info['channels']}` grows by {[(norm(c) if c is not None else '1', norm(e)[:50]) for c, e, n in (gm or [])] if gm is not None else 'an unrecognised form'}", inst="decode-eod-empties")
+
+
+def _decode_paths(ctx, df, TRIMMED):
+    """classify the paths of decode_frame: a path that interprets a block (np.frombuffer) is a data path, one that reads a
+    block without interpreting it is an end-of-data path; the emptiness tests on the trimmed block must agree"""
+    from .sem import emptiness_by
+    info = {"eod": 0, "data": 0, "bad": [], "test": None, "empty_is_true": True, "env": {}, "stream": "?", "channels": "channels", "data_paths": []}
+    rets = [r for r in own_nodes(df) if isinstance(r, ast.Return) and isinstance(r.value, ast.Name)]
+    if rets:
+        info["channels"] = rets[0].value.id
+    for p in run_paths(ctx, df, rule="P5"):
+        reads = [(c, e) for c, e, st in calls_on(p) if isinstance(c.func, ast.Attribute) and c.func.attr == "read"]
+        if not reads:
+            continue
+        rk = evaluator(ctx, df, reads[0][1]).ev(reads[0][0].func.value).key()
+        if rk.startswith("(") and rk.endswith(".stream)"):
+            rk = rk[1:-1]
+        info["stream"] = rk[:-len(".stream")] if rk.endswith(".stream") else rk
+        is_data = any(isinstance(c.func, ast.Attribute) and c.func.attr == "frombuffer" for c, e, st in calls_on(p))
+        sides = []
+        for s_ in p.steps:
+            if s_.kind != "test" or s_.ast is None or not isinstance(s_.ast, ast.If):
+                continue
+            ev = evaluator(ctx, df, s_.env)
+            e = emptiness_by(s_.ast.test, lambda x: bool(TRIMMED.fullmatch(ev.ev(x).key())))
+            if e is None:
+                continue
+            sides.append((s_.label == "true") == e)
+            info["test"], info["empty_is_true"], info["env"] = s_.ast, e, s_.env
+        if is_data:
+            info["data"] += 1
+            info["data_paths"].append(p)
+            if not sides or any(sides):
+                info["bad"].append(f"a block is interpreted on a path (lines {p.lines()[-6:]}) that did not establish it is non-empty")
+        else:
+            info["eod"] += 1
+            if not any(sides):
+                info["bad"].append(f"a block is dropped on a path (lines {p.lines()[-6:]}) that did not establish it is empty")
+    return info
 
 
 # ------------------------------------------------------------------------ P6
 def rule_P6(ctx):
     ef = ctx.fn(TR, "encode_frame", "P6")
-    rets = [a for a in own_nodes(ef) if isinstance(a, (ast.Assign, ast.Return)) and "tobytes()" in norm(a.value if a.value is not None else ast.Constant(value=0))]
-    idioms = ("np.vstack(channels).reshape((-1,), order='F').tobytes()", "np.vstack(channels).T.reshape(-1).tobytes()", "np.column_stack(channels).reshape(-1).tobytes()",
-              "np.vstack(channels).T.reshape((-1,)).tobytes()", "np.column_stack(channels).reshape((-1,)).tobytes()", "np.vstack(channels).T.flatten().tobytes()")
-    ok = len(rets) == 1 and norm(rets[0].value) in idioms
-    ctx.ob("P6", ef, "encode_frame interleaves frame by frame: channel c of frame f lands at position f*channels + c", ok,
-           "" if ok else f"interleave expression `{norm(rets[0].value) if rets else '?'}` is not a recognised frame-major interleave", inst="interleave")
-    asgs = sorted([a for a in own_nodes(ef) if isinstance(a, ast.Assign) and norm(a.targets[0]) == "channels"], key=lambda a: a.lineno)
-    asg = [norm(a.value) for a in asgs]
-    casts = [i for i, a in enumerate(asgs) if isinstance(a.value, (ast.ListComp, ast.Call)) and ".astype(dest_dtype)" in norm(a.value) and "for" in norm(a.value) and "in channels" in norm(a.value)]
-    pads = [i for i, a in enumerate(asgs) if norm(a.value) == "pad_channels(channels)"]
-    ok = len(casts) == 1 and len(pads) == 1 and pads[0] < casts[0]
-    ctx.ob("P6", ef, "channels are padded to a common length and cast to the destination sample type, in order", ok, f"{asg}", inst="pad-cast")
+    from .sem import straightline, canon_ast
+    env, val, rest = straightline(ef.body)
+    chans, dest = ef.args.args[0].arg, ef.args.args[1].arg
+    ok, det, stacked = False, "encode_frame is not a straight-line computation of its result", None
+    if val is not None:
+        # <stack>(X) <flatten> .tobytes()
+        e = val
+        det = f"interleave expression `{canon_ast(val)[:160]}` is not a recognised frame-major interleave"
+        if isinstance(e, ast.Call) and isinstance(e.func, ast.Attribute) and e.func.attr == "tobytes" and not e.args:
+            stacked = _frame_major(e.func.value)
+            ok = stacked is not None
+    ctx.ob("P6", ef, "encode_frame interleaves frame by frame: channel c of frame f lands at position f*channels + c", ok, "" if ok else det, inst="interleave")
+    want = f"[_c0.astype({dest}) for _c0 in pad_channels({chans})]"
+    got = canon_ast(stacked) if stacked is not None else "?"
+    ok = got == want
+    ctx.ob("P6", ef, "channels are padded to a common length and cast to the destination sample type, in order", ok, "" if ok else f"stacked value `{got[:160]}`", inst="pad-cast")
     df = ctx.fn(TR, "decode_frame", "P6")
-    t = full(df)
-    ok = "samples_interleaved.reshape((-1, num_channels)).T" in t
-    ctx.ob("P6", df, "decode_frame de-interleaves with reshape((-1, channels)).T (row c = channel c)", ok, "", inst="deinterleave")
+    import re as _re
     from .sem import grow_events
-    fr = [f for f in own_nodes(df) if isinstance(f, ast.For)]
-    zl = [f for f in fr if norm(f.iter) == "zip(streams, buffer_sizes)"]
-    grows = list(grow_events(df, "channels"))
-    inside = zl and all(any(n is g[0] for n in ast.walk(zl[0])) for g in grows)
-    ok = bool(grows) and bool(inside) and all(g[1] in ("append", "extend", "iadd", "concat") for g in grows)
-    ctx.ob("P6", df, "the channels of each stream are appended (never prepended/inserted) inside the loop over the streams, i.e. in stream order", ok,
-           "" if ok else f"{[(g[1], norm(g[0])[:50]) for g in grows]}", inst="append-order")
-    ok = bool(zl)
+    TRIMMED = _re.compile(r"resize_buffer\(\((?P<b>[\w~.]+)\.stream\)\.read\([^()]*\),(?P=b)\.frame_size\)")
+    info = _decode_paths(ctx, df, TRIMMED)
+    S, L = info["stream"], info["channels"]
+    NC = f"max(1,{S}.encoding.num_interleaved_channels)"
+    n_multi = n_single = 0
+    okd, detd = True, ""
+    for p in info["data_paths"]:
+        grows = []
+        R = None
+        for s_ in p.steps:
+            if s_.kind != "stmt":
+                continue
+            for n, k, v in grow_events(s_.ast, L):
+                grows.append((k, evaluator(ctx, df, s_.env).ev(v).key()))
+        for c, e, st in calls_on(p):
+            if isinstance(c.func, ast.Name) and c.func.id == "resize_buffer":
+                R = evaluator(ctx, df, e).ev(c).key()
+        fb = f"np.frombuffer({R},dtype={S}.encoding.dtype)"
+        T_multi = {f"(({fb}).reshape(tuple(-1,{NC}))).T", f"(({fb}).reshape([-1,{NC}])).T", f"(({fb}).reshape(-1,{NC})).T"}
+        multi = {f"list({t})" for t in T_multi} | T_multi
+        single = {f"[{fb}]"}
+        nc_false = any((not t) and c == f"-1 + {NC} > 0" for c, t, _ in p.conds) or any(t and c in (f"-1 + {NC} <= 0", f"-1 + {NC} == 0") for c, t, _ in p.conds)
+        if len(grows) != 1 or grows[0][0] not in ("iadd", "extend", "concat"):
+            okd, detd = False, f"a data path grows `{L}` by {grows}"
+        elif grows[0][1] in multi:
+            n_multi += 1
+        elif grows[0][1] in single and nc_false:
+            n_single += 1
+        else:
+            okd, detd = False, f"decoded block appended as `{grows[0][1][:200]}`"
+    okd = okd and n_multi >= 1
+    ctx.ob("P6", df, "decode_frame interprets the trimmed block with the stream's own sample type and de-interleaves it with reshape((-1, channels)).T (row c = channel c), "
+                     "appending the channels in place order", okd, detd, inst="deinterleave")
+    fr = [f for f in own_nodes(df) if isinstance(f, ast.For) and any(isinstance(c, ast.Call) and isinstance(c.func, ast.Attribute) and c.func.attr == "read" for c in ast.walk(f))]
+    ok = len(fr) == 1 and isinstance(fr[0].iter, ast.Call) and norm(fr[0].iter.func) == "zip" and [norm(a) for a in fr[0].iter.args] == [a.arg for a in df.args.args[:2]] \
+        and isinstance(fr[0].target, ast.Tuple) and len(fr[0].target.elts) == 2
+    if ok:
+        sv, zv = norm(fr[0].target.elts[0]), norm(fr[0].target.elts[1])
+        ok = S == sv + "~"
+        for p in info["data_paths"][:1]:
+            for c, e, st in calls_on(p):
+                if isinstance(c.func, ast.Attribute) and c.func.attr == "read":
+                    ok = ok and len(c.args) == 1 and evaluator(ctx, df, e).ev(c.args[0]).key() == zv + "~"
+    elif len(fr) != 1 or not (isinstance(fr[0].iter, ast.Call) and norm(fr[0].iter.func) == "zip"):
+        raise AnalysisError("P6", where(df), "decode_frame: the loop over (stream, block size) pairs is not a for-loop over zip(...) - unrecognised form")
     ctx.ob("P6", df, "streams are read in order, each with its own block size", ok, "", inst="zip-streams")
-    ok = "np.frombuffer(buffer, dtype=dtype)" in t and "dtype = stream.encoding.dtype" in t and "num_channels = max(1, stream.encoding.num_interleaved_channels)" in t
-    ctx.ob("P6", df, "bytes are interpreted with the stream's own sample type and channel count", ok, "", inst="dtype")
+    grows_all = list(grow_events(df, L))
+    inside = fr and all(any(n is g[0] for n in ast.walk(fr[0])) for g in grows_all)
+    ok = bool(grows_all) and bool(inside) and all(g[1] in ("append", "extend", "iadd", "concat") for g in grows_all)
+    ctx.ob("P6", df, "the channels of each stream are appended (never prepended/inserted) inside the loop over the streams, i.e. in stream order", ok,
+           "" if ok else f"{[(g[1], norm(g[0])[:50]) for g in grows_all]}", inst="append-order")
     pc = ctx.fn(TR, "pad_channels", "P6")
     from .sem import local_function, canon_expr
     fns = [pc]
@@ -521,6 +649,56 @@ def rule_P6(ctx):
     want = sorted([("1", "np.dtype('int8')"), ("2", "np.dtype('int16')"), ("4", "np.dtype('int32')"), ("8", "np.dtype('int64')"),
                    ("1", "np.dtype('uint8')"), ("2", "np.dtype('uint16')"), ("4", "np.dtype('uint32')"), ("8", "np.dtype('uint64')")])
     ctx.ob("P6", dt, "sample width -> numpy type table (1/2/4/8 bytes, signed and unsigned)", got == want, f"{got}", inst="dtype-table")
+
+
+def _frame_major(e):
+    """e flattens a channel-major stack frame by frame: returns the stacked sequence expression, else None.
+    Recognised: vstack(X) read column-major (reshape(-1, order='F') / ravel / flatten with order='F'), the transpose of
+    vstack(X) or column_stack(X) / stack(X, axis=1) read row-major (reshape(-1) / flatten() / ravel())."""
+    def is_minus1(a):
+        t = " ".join(ast.unparse(a).split())
+        return t in ("-1", "(-1,)", "[-1]")
+
+    def order_f(call):
+        for k in call.keywords:
+            if k.arg == "order" and isinstance(k.value, ast.Constant) and k.value.value == "F":
+                return True
+        return False
+
+    def order_default(call):
+        return all(not (k.arg == "order") or (isinstance(k.value, ast.Constant) and k.value.value == "C") for k in call.keywords)
+
+    if not (isinstance(e, ast.Call) and isinstance(e.func, ast.Attribute)):
+        return None
+    m, base = e.func.attr, e.func.value
+    if m == "reshape":
+        if len(e.args) != 1 or not is_minus1(e.args[0]):
+            return None
+    elif m in ("flatten", "ravel"):
+        if e.args:
+            return None
+    else:
+        return None
+    col_major = order_f(e)
+    if not col_major and not order_default(e):
+        return None
+
+    def stack_of(x, names, axis=None):
+        if isinstance(x, ast.Call) and isinstance(x.func, ast.Attribute) and isinstance(x.func.value, ast.Name) and x.func.value.id in ("np", "numpy") \
+                and x.func.attr in names and len(x.args) == 1:
+            kws = {k.arg: " ".join(ast.unparse(k.value).split()) for k in x.keywords}
+            if axis is None and not kws:
+                return x.args[0]
+            if axis is not None and kws == {"axis": axis}:
+                return x.args[0]
+        return None
+
+    if col_major:
+        return stack_of(base, ("vstack",)) or stack_of(base, ("stack",), "0") or stack_of(base, ("array",))
+    # row-major read of (frames x channels)
+    if isinstance(base, ast.Attribute) and base.attr == "T":
+        return stack_of(base.value, ("vstack",)) or stack_of(base.value, ("stack",), "0")
+    return stack_of(base, ("column_stack",)) or stack_of(base, ("stack",), "1") or stack_of(base, ("stack",), "-1")
 
 
 # ------------------------------------------------------------------------ P7
